@@ -133,7 +133,7 @@ func newRig() (*rig, error) {
 	}
 	var nss []*models.Namespace
 	for _, limit := range []int{1, 3, -1} {
-		ns := e2erig.Namespace(nsName(limit), 4, g.fakes[0].Addr(), g.fakes[1].Addr())
+		ns := e2erig.Namespace(nsName(limit), 1, g.fakes[0].Addr(), g.fakes[1].Addr())
 		ns.MaxSqlResultSize = limit
 		ns.Users = []*models.User{{UserName: userOf(limit), Password: e2erig.Password, Namespace: ns.Name,
 			RWFlag: models.ReadWrite, RWSplit: models.NoReadWriteSplit}}
@@ -347,67 +347,112 @@ func judge(limit int, o outcome) string {
 	return "protocol"
 }
 
-// runCase = the statement + a small probe statement on the same path through a fresh
-// client connection (detects rows of the first statement leaking into the next one over a
-// pooled backend connection).
-func (g *rig) runCase(r *ev.Run, c Case) (key string, viols int) {
-	user := userOf(c.Limit)
-	col := byte(45)
+// attempt = the statement + a small probe statement on the same path through a fresh
+// client connection (the pools hold one backend connection per slice, so the probe runs on
+// the connection the statement used: rows of the first statement leaking into the next
+// one, or a connection left in a broken state, show up in the probe).
+type finding struct {
+	stage, kind string
+	o           outcome
+	rows        int
+}
+
+func (g *rig) attempt(c Case) (main outcome, fs []finding) {
 	dial := func() *e2erig.Client {
-		cl, err := e2erig.Dial(g.proxy.Addr, user, e2erig.Password, e2erig.DB, col, 300*time.Second)
+		cl, err := e2erig.Dial(g.proxy.Addr, userOf(c.Limit), e2erig.Password, e2erig.DB, 45, 300*time.Second)
 		if err != nil {
 			ev.Fatalf("dial proxy: %v", err)
 		}
 		return cl
 	}
-	report := func(stage string, o outcome, kind string, rr, ss int) {
-		viols++
-		w := ev.Witness{
-			Summary: fmt.Sprintf("%s [%s]: %s — client got class=%s rows=%d (backends produced %d rows in %d statement(s), max per statement %d) %s",
-				c, stage, kind, o.class, len(o.got), len(o.expected), o.nStmts, o.maxPer, o.detail),
-			Features: map[string]string{
-				"kind": kind, "stage": stage, "path": c.Path, "proto": c.Proto,
-				"limit": limitClass(c.Limit, rr), "size": sizeClass(c.R, c.S), "client": o.class,
-			},
-			Case: c,
-		}
-		r.Violation(w)
-	}
 	cl := dial()
-	o := g.runStmt(cl, c.Path, c.Proto, c.R, c.S)
+	main = g.runStmt(cl, c.Path, c.Proto, c.R, c.S)
 	cl.Close()
-	kind := judge(c.Limit, o)
-	if kind != "" {
-		// re-run 4 more times on fresh connections; report only if it fails identically
-		same := true
-		for i := 0; i < 4 && same; i++ {
-			cl2 := dial()
-			o2 := g.runStmt(cl2, c.Path, c.Proto, c.R, c.S)
-			cl2.Close()
-			if judge(c.Limit, o2) != kind {
-				same = false
+	if k := judge(c.Limit, main); k != "" {
+		fs = append(fs, finding{"main", k, main, c.R})
+	}
+	// probe: 1 row of 8 bytes per physical statement (0 rows in the limit-1 namespace, so
+	// that the probe itself is below every limit)
+	pr := 1
+	if c.Limit == 1 {
+		pr = 0
+	}
+	cl = dial()
+	po := g.runStmt(cl, c.Path, c.Proto, pr, 8)
+	cl.Close()
+	if k := judge(c.Limit, po); k != "" {
+		fs = append(fs, finding{"probe", k, po, pr})
+	}
+	return main, fs
+}
+
+func sig(fs []finding) string {
+	var sb strings.Builder
+	for _, f := range fs {
+		sb.WriteString(f.stage + ":" + f.kind + ":" + f.o.class + ";")
+	}
+	return sb.String()
+}
+
+// runCase runs the case on the shared rig. If the oracle fires, the case is re-run on
+// FRESH rigs (new proxy, new backends: no state carried over from earlier cases): 4 more
+// times (2 in the quick tier for results above 8 MiB). The fresh runs must agree with
+// each other (else engine error); their verdict is the case's verdict. The shared rig is
+// replaced afterwards, so that a connection left in a bad state cannot affect later cases.
+func runCase(r *ev.Run, gp **rig, c Case) (key string) {
+	g := *gp
+	main, fs := g.attempt(c)
+	if len(fs) > 0 {
+		more := 4
+		if r.Quick() && c.R*c.S > 8*MiB {
+			more = 2
+		}
+		var fresh []finding
+		var fmain outcome
+		for i := 0; i < more; i++ {
+			fg, err := newRig()
+			if err != nil {
+				ev.Fatalf("rig: %v", err)
+			}
+			m2, f2 := fg.attempt(c)
+			fg.close()
+			if i == 0 {
+				fresh, fmain = f2, m2
+			} else if sig(f2) != sig(fresh) {
+				ev.Fatalf("case %s: verdict not reproducible on fresh rigs: %q vs %q", c, sig(fresh), sig(f2))
 			}
 		}
-		if !same {
-			ev.Fatalf("case %s: verdict not reproducible (%s)", c, kind)
+		if sig(fresh) != sig(fs) {
+			r.Add("verdicts_changed_on_fresh_rig", 1)
 		}
-		report("main", o, kind, c.R, c.S)
+		fs, main = fresh, fmain
+		g.close()
+		ng, err := newRig()
+		if err != nil {
+			ev.Fatalf("rig: %v", err)
+		}
+		*gp = ng
 	}
-	// probe: 1 row of 8 bytes per physical statement (never above any limit)
-	cl = dial()
-	po := g.runStmt(cl, c.Path, c.Proto, 1, 8)
-	cl.Close()
-	if pk := judge(c.Limit, po); pk != "" {
-		report("probe", po, pk, 1, 8)
+	for _, f := range fs {
+		o := f.o
+		r.Violation(ev.Witness{
+			Summary: fmt.Sprintf("%s [%s]: %s — client got class=%s rows=%d (backends produced %d rows in %d statement(s), max per statement %d) %s",
+				c, f.stage, f.kind, o.class, len(o.got), len(o.expected), o.nStmts, o.maxPer, o.detail),
+			Features: map[string]string{
+				"kind": f.kind, "stage": f.stage, "path": c.Path, "proto": c.Proto,
+				"limit": limitClass(c.Limit, f.rows), "size": sizeClass(c.R, c.S), "client": o.class,
+			},
+			Case: c,
+		})
 	}
 	got := "complete"
-	if o.class != "rows" {
-		got = o.class
-	} else if kind != "" {
-		got = kind
+	if main.class != "rows" {
+		got = main.class
 	}
-	key = fmt.Sprintf("%s|%s|%s|%s|stmts=%d|%s", c.Path, c.Proto, limitClass(c.Limit, c.R), sizeClass(c.R, c.S), o.nStmts, got)
-	return key, viols
+	for _, f := range fs {
+		got += "+" + f.stage + ":" + f.kind
+	}
+	return fmt.Sprintf("%s|%s|%s|%s|stmts=%d|%s", c.Path, c.Proto, limitClass(c.Limit, c.R), sizeClass(c.R, c.S), main.nStmts, got)
 }
 
 // ---- universe --------------------------------------------------------------------------
@@ -472,6 +517,7 @@ func universe(thorough bool) []Case {
 		q := []pp{{"unsharded", "text"}, {"unsharded", "binary"}, {"shard1", "text"}, {"shard2slices", "text"}, {"shard2tables", "text"}}
 		add([]pp{{"unsharded", "text"}, {"shard2slices", "binary"}}, -1, 10001, 1, "unlimited: more rows than the default limit 10000")
 		add(q, -1, 17, MiB, "16 MiB threshold")
+		add([]pp{{"unsharded", "text"}}, -1, 33, MiB, "16 MiB threshold, three chunks")
 		add([]pp{{"unsharded", "text"}}, 3, 4, 9*MiB, "row limit across 16 MiB chunks")
 	}
 	return cs
@@ -487,7 +533,7 @@ func main() {
 		if err != nil {
 			ev.Fatalf("rig: %v", err)
 		}
-		key, _ := g.runCase(r, rc)
+		key := runCase(r, &g, rc)
 		fmt.Println("replay:", rc, "->", key)
 		g.close()
 		r.Finish()
@@ -505,8 +551,8 @@ func main() {
 			break
 		}
 		t0 := time.Now()
-		key, _ := g.runCase(r, c)
-		if d := time.Since(t0); d > 500*time.Millisecond && os.Getenv("VERIF_C39_TIMING") != "" {
+		key := runCase(r, &g, c)
+		if d := time.Since(t0); d > 100*time.Millisecond && os.Getenv("VERIF_C39_TIMING") != "" {
 			fmt.Fprintf(os.Stderr, "slow %.1fs %s -> %s\n", d.Seconds(), c, key)
 		}
 		r.Add("evaluations", 1)
